@@ -7,43 +7,37 @@
    if the running search's next query is due, with gaps 1 s, 2 s, 4 s ... 3600 s; nothing
    else is ever sent.
 
-   FULL STATEMENT (false of the code, see C19_full_statement_refuted and known finding
-   C13-timeout-late-rerun):
-       forall t0 h, wf_hist t0 h = true -> chk_C19 t0 h (model_run t0 h) = true.
-   Proved: the statement for every history in which the model's hazard flag never rises
-   (C19_monitor_holds), in particular for every history in which the daemon is never woken
-   later than it asked (C19_timely_histories); the closed form of the ladder for EVERY k on the
-   timer-exact silent schedule (backoff_sequence); one chain per search (rebrowse_single_chain). *)
+   FULL STATEMENT, proved (C19_monitor_holds):
+       forall t0 h, wf_hist t0 h = true -> chk_C19 t0 h (model_run t0 h) = true
+   - all API call sequences, all iteration times (early, on time, late).  It was refuted on
+   the tree before commit a4675d4 (a resolver deadline noticed late left an unbounded query
+   chain); the former witness is kept below and now satisfies the checker.
+   Also: the closed form of the ladder for EVERY k on the timer-exact silent schedule
+   (backoff_sequence); one chain per search (rebrowse_single_chain). *)
 From Coq Require Import List NArith Bool.
 From Mdns Require Import Bytes Sched SchedSpec SchedParamsProofs SchedProofs SchedSpecProofs.
 Import ListNotations.
 Open Scope N_scope.
 
-(* On every history without the late-timeout hazard the trace of the model satisfies chk_C19
-   (the monitor applied to the implementation's traces). *)
+(* On every well-formed history the trace of the model satisfies chk_C19 (the monitor applied
+   to the implementation's traces). *)
 Theorem C19_monitor_holds :
-  forall t0 h, hazard_free t0 h = true -> chk_C19 t0 h (model_run t0 h) = true.
+  forall t0 h, wf_hist t0 h = true -> chk_C19 t0 h (model_run t0 h) = true.
 Proof. exact chk_C19_model. Qed.
 
-(* ... in particular on every well-formed history in which each iteration happens no later
-   than the wake-up the daemon requested (API calls may wake it earlier). *)
-Theorem C19_timely_histories :
-  forall t0 h, wf_hist t0 h = true -> timely t0 h = true -> chk_C19 t0 h (model_run t0 h) = true.
-Proof. exact chk_C19_timely. Qed.
-
 (* backoff_sequence: a browse (host = false) or hostname resolution without timeout
-   (host = true) started at t1 - after ANY hazard-free history h, whatever else is going on -
+   (host = true) started at t1 - after ANY well-formed history h, whatever else is going on -
    sends its first query at t1 and then, on the timer-exact silent schedule, the k-th further
    query exactly at t1 + ladder k, for every k (no bound on the horizon). *)
 Theorem backoff_sequence :
   forall t0 h host nm ch t1 (k : nat),
   let it := mkIter t1 [CStart host nm false None ch] in
-  wf_hist t0 (h ++ [it]) = true -> hazard_free t0 (h ++ [it]) = true ->
+  wf_hist t0 (h ++ [it]) = true ->
   st_alive (final (init t0) h) = true ->
   let s1 := final (init t0) (h ++ [it]) in
   ktimes (host, nm) (run (final (init t0) h) [it]) = [t1]
   /\ exists n, ktimes (host, nm) (run s1 (silent_hist s1 n)) = map (fun i => t1 + ladder i) (seq 1 k).
-Proof. exact backoff_sequence_wf. Qed.
+Proof. exact backoff_sequence_model. Qed.
 
 (* the ladder: ladder (k+1) = ladder k + dly k * 1000 ms with dly k = min(2^k, 3600) s,
    i.e. gaps 1, 2, 4, ..., 2048, 3600, 3600, ... seconds *)
@@ -73,26 +67,25 @@ Theorem backoff_constants :
   /\ (forall host cache, first_delay host cache = 1).
 Proof. exact (conj next_time_spec (conj next_delay_spec first_delay_spec)). Qed.
 
-(* ---- the full statement is false of the code as it is: a resolver deadline noticed late ---- *)
+(* ---- the witness that refuted the full statement before commit a4675d4: the deadline 1003001
+        and the retransmission of 1003000 are both noticed at 1003005.  Now the retransmission is
+        dropped: one query at 1000000 and at 1001000, none afterwards ---- *)
 Definition host_w : name := [77; 121; 46; 108; 111; 99; 97; 108; 46].      (* "My.local." *)
 Definition late_timeout_history : list iter :=
   [ mkIter 1000000 [ResolveHostname host_w (Some 3001) 1];
     mkIter 1001000 [];
-    mkIter 1003005 [];      (* the retransmission of 1003000 and the deadline 1003001 are both over *)
+    mkIter 1003005 [];
     mkIter 1007005 [];
     mkIter 1015005 [] ].
 
-Lemma late_timeout_refutes :
+Example late_timeout_now_silent :
   wf_hist 1000000 late_timeout_history = true
-  /\ chk_C19 1000000 late_timeout_history (model_run 1000000 late_timeout_history) = false.
-Proof. vm_compute. split; reflexivity. Qed.
+  /\ chk_C19 1000000 late_timeout_history (model_run 1000000 late_timeout_history) = true
+  /\ map (fun o => length (o_sent o)) (model_run 1000000 late_timeout_history) = [0; 1; 1; 0; 0; 0]%nat.
+Proof. vm_compute. repeat split; reflexivity. Qed.
 
-Theorem C19_full_statement_refuted :
-  exists t0 h, wf_hist t0 h = true /\ chk_C19 t0 h (model_run t0 h) = false.
-Proof. exact (ex_intro _ 1000000 (ex_intro _ late_timeout_history late_timeout_refutes)). Qed.
-
-(* ---- non-vacuity: a well-formed, timely, hazard-free history with two searches, a re-browse,
-        a stop and late iterations; and the ladder up to the cap ---- *)
+(* ---- non-vacuity: a well-formed history with two searches, a re-browse, a stop and late
+        iterations; and the ladder up to the cap ---- *)
 Definition ty_w : name := [95; 104; 46; 95; 116; 99; 112; 46; 108; 111; 99; 97; 108; 46].  (* "_h._tcp.local." *)
 Definition sample_history : list iter :=
   [ mkIter 1000000 [Browse ty_w 1; ResolveHostname host_w (Some 10000) 2];
@@ -105,18 +98,16 @@ Definition sample_history : list iter :=
 
 Example C19_nonvacuous :
   wf_hist 1000000 sample_history = true
-  /\ timely 1000000 sample_history = true
-  /\ hazard_free 1000000 sample_history = true
+  /\ chk_C19 1000000 sample_history (model_run 1000000 sample_history) = true
   /\ map (fun o => length (o_sent o)) (model_run 1000000 sample_history) = [0; 2; 2; 1; 1; 0; 1; 0]%nat
   /\ map dly [0; 1; 2; 10; 11; 12; 13; 40]%nat = [1; 2; 4; 1024; 2048; 3600; 3600; 3600].
 Proof. vm_compute. repeat split; reflexivity. Qed.
 
 Print Assumptions C19_monitor_holds.
-Print Assumptions C19_timely_histories.
 Print Assumptions backoff_sequence.
 Print Assumptions backoff_delays.
 Print Assumptions backoff_gap_respected.
 Print Assumptions rebrowse_single_chain.
 Print Assumptions backoff_constants.
-Print Assumptions C19_full_statement_refuted.
+Print Assumptions late_timeout_now_silent.
 Print Assumptions C19_nonvacuous.
